@@ -226,7 +226,7 @@ theorem reads_total_on_model (kv : KV) (c : Caller) (op : Op) (aok sok : Bool) :
       exact this
     | _ => simp [c02_reads_total, obsOf]
 
-/-- ...and so does it satisfy `failed_noop`, `frame`, `reads`, `delete_version`, `active` and `bytes_stable`, in every state that satisfies the
+/-- ...and so does it satisfy `failed_noop`, `frame`, `reads`, `delete_version`, `active`, `bytes_stable` and `put`, in every state that satisfies the
 store invariant (every reachable one) -/
 theorem monitors_sound (kv : KV) (hinv : Inv kv) (c : Caller) (op : Op) (aok sok : Bool) :
     c02_failed_noop (MonSound.obsOf kv c op aok sok) = true ∧
@@ -234,10 +234,11 @@ theorem monitors_sound (kv : KV) (hinv : Inv kv) (c : Caller) (op : Op) (aok sok
     c02_reads (MonSound.obsOf kv c op aok sok) = true ∧
     c02_delete_version (MonSound.obsOf kv c op aok sok) = true ∧
     c02_active (MonSound.obsOf kv c op aok sok) = true ∧
-    c02_bytes_stable (MonSound.obsOf kv c op aok sok) = true := by
+    c02_bytes_stable (MonSound.obsOf kv c op aok sok) = true ∧
+    c02_put (MonSound.obsOf kv c op aok sok) = true := by
   refine ⟨?_, MonSound.c02_frame_sound kv c op aok sok hinv, MonSound.c02_reads_sound kv c op aok sok,
           MonSound.c02_delete_version_sound kv c op aok sok hinv, MonSound.c02_active_sound kv c op aok sok hinv,
-          MonSound.c02_bytes_stable_sound kv c op aok sok hinv⟩
+          MonSound.c02_bytes_stable_sound kv c op aok sok hinv, MonSound.c02_put_sound kv c op aok sok hinv⟩
   simp only [c02_failed_noop, MonSound.obsOf]
   by_cases h : (step Cfg.std kv c op aok sok).2.1.isError = true
   · simp [h, failed_calls_noop kv hinv c op aok sok h]
